@@ -174,6 +174,17 @@ fn enumerate_cases(file: &[u8], parsed: &Parsed, seed: u64, cap: usize, clean_ca
 		let xor = if i % 2 == 0 { 1 << rng.below(8) } else { rng.range(1, 255) as u8 };
 		cases.push(Case { fault: Fault::Byte { off, xor }, reader: kinds[i % kinds.len()].clone() });
 	}
+	// (B') the last bytes of every payload (codec trailers: snappy CRC, deflate end-of-stream bits, zstd / xz / bzip2
+	// checksums) and its first bytes (frame headers), under EVERY reader kind
+	for b in &parsed.blocks {
+		let tail = b.sync_off.saturating_sub(12).max(b.payload_off)..b.sync_off;
+		let head = b.payload_off..(b.payload_off + 8).min(b.sync_off);
+		for off in tail.chain(head) {
+			for k in &kinds {
+				cases.push(Case { fault: Fault::Byte { off, xor: 1 << rng.below(8) }, reader: k.clone() });
+			}
+		}
+	}
 	// (E) I/O error at every source call index
 	for (k, calls) in clean_calls {
 		let idxs: Vec<u64> = if (*calls as usize) <= cap / 2 { (0..*calls).collect() } else { (0..(cap / 2) as u64).map(|j| j * calls / (cap / 2) as u64).collect() };
